@@ -51,6 +51,13 @@ Proof.
   - rewrite ren_get_set. reflexivity.
 Qed.
 
+Lemma root_name_not_defunct : forall n, is_defunct n = false -> root_name n = n.
+Proof.
+  intros [|x n] H; [reflexivity|]. unfold is_defunct, root_name in *.
+  destruct x as [|p|p]; try reflexivity.
+  do 6 (destruct p as [p|p|]; try reflexivity; try discriminate).
+Qed.
+
 Section Calc.
 Variable O : ValOps.
 Hypothesis L : ValLaws O.
@@ -549,7 +556,7 @@ Proof.
     + intros t0 Ht0. apply Hk2 in Ht0. rewrite (alive_put s t T T' t0 Ef Hid').
       destruct Ht0 as [->|Ht0]; [left; congruence|]. apply Hk1 in Ht0.
       destruct Ht0 as [->|Ht0]; [left; congruence | apply Hkeys; exact Ht0].
-    + intros t0 T0 r Hf0 Hr. rewrite Ha2, Ha1. rewrite find_put_table in Hf0 by exact Hid'. name_cases t0 t.
+    + intros t0 T0 r Hf0 Hr. rewrite Ha2, !Ha1. rewrite find_put_table in Hf0 by exact Hid'. name_cases t0 t.
       * subst t0. rewrite name_eqb_refl. rewrite Ef in Hf0. inversion Hf0; subst T0. apply Hrows in Hr. rewrite ETc in Hr. cbn [t_rows] in Hr.
         destruct Hr as [Hr|[]]. rewrite (proj2 (zmem_In _ _) Hr). discriminate.
       * eapply Hafter; eassumption.
@@ -629,7 +636,8 @@ Proof.
     + intros t0 T0 Hf0. rewrite find_app_table in Hf0.
       destruct (find_table O s t0) eqn:E0; [inversion Hf0; subst; apply (Hnames _ _ E0)|].
       cbn [t_id] in Hf0. name_cases t0 t; [|discriminate]. inversion Hf0; subst T0 t0. split; [exact Hdt|].
-      cbn [t_cols]. intros c C Hc. apply find_col_In in Hc. apply in_map_iff in Hc. destruct Hc as [ci [<- Hin]]. cbn.
+      cbn [t_cols]. intros c C Hc. pose proof (find_col_id O _ _ _ Hc) as Hcid.
+      apply find_col_In in Hc. apply in_map_iff in Hc. destruct Hc as [ci [HC Hin]]. subst C. cbn in Hcid. subst c.
       rewrite forallb_forall in Hdc. apply negb_true_iff. apply Hdc. exact Hin.
     + intros t0 Ht0. rewrite Htd in Ht0. rewrite find_app_table.
       destruct (Hkeys _ Ht0) as [Hk|Hk]; [left | right; exact Hk]. destruct (find_table O s t0); [discriminate | contradiction].
@@ -651,9 +659,9 @@ Proof.
       * name_cases t0 t; [subst; congruence | apply Hkeys; exact Ht0].
     + intros t0 T0 r Hf0 Hr. rewrite find_drop_table in Hf0. name_cases t0 t; [discriminate|].
       unfold row_after. rewrite Htd.
-      destruct (td_find O (sm_tables O sm) t) as [d|] eqn:Ed; [|eapply Hafter; eassumption].
+      destruct (td_find O (sm_tables O sm) t) as [d|] eqn:Ed; [|exact (Hafter _ _ r Hf0 Hr)].
       assert (name_eqb t0 (defunct_name t) = false) as -> by (apply name_eqb_neq; apply not_defunct_neq; apply (Hnames _ _ Hf0)).
-      eapply Hafter; eassumption.
+      rewrite E. exact (Hafter _ _ r Hf0 Hr).
   - (* RenameTable *)
     destruct (find_table O s old) as [T|] eqn:Ef; [|discriminate].
     destruct (find_table O s new) eqn:En; [discriminate|]. inversion H; subst s' u ops; clear H. cbn [fold_left].
@@ -673,7 +681,7 @@ Proof.
       destruct (td_find O (sm_tables O sm) old) as [d|] eqn:Ed.
       * name_cases t0 new.
         -- subst t0. left. assert (name_eqb new old = false) as -> by (apply name_eqb_neq; congruence).
-           rewrite En, name_eqb_refl. discriminate.
+           rewrite En. discriminate.
         -- name_cases t0 old; [contradiction|]. destruct (Hkeys _ Ht0) as [Hk|Hk]; [left | right; exact Hk].
            destruct (find_table O s t0); [discriminate | contradiction].
       * name_cases t0 old; [subst; congruence|]. destruct (Hkeys _ Ht0) as [Hk|Hk]; [left | right; exact Hk].
@@ -689,6 +697,674 @@ Proof.
            destruct (td_find O (sm_tables O sm) old) as [d|] eqn:Ed.
            ++ pose proof (Hafter _ _ r Ef Hr) as Ha. unfold row_after in Ha. rewrite Ed in Ha. exact Ha.
            ++ rewrite Hstale. discriminate.
+Qed.
+
+
+(* ------------------------------------------------------------------------------------------------ *)
+(* the undo list of the doc actions brings any document that differs from the current one only in created
+   cells back to the start *)
+
+Definition tr_ok (s0 s : state) (U : list action) (sm : summary) : Prop :=
+  forall s1, seq_ex O (created sm) s1 s -> exists s2, replay_doc O (rev U) s1 = Ok s2 /\ seq O s2 s0.
+
+Lemma created_empty : forall t c r, ~ created (sum_empty O) t c r.
+Proof. intros t c r [H|[td [H _]]]; cbn in H; discriminate. Qed.
+
+Lemma tr_ok_init : forall s0, tr_ok s0 s0 [] (sum_empty O).
+Proof.
+  intros s0 s1 H. exists s1. split; [reflexivity|]. eapply seq_ex_weaken; [|exact H].
+  intros t c r Hc. exfalso. eapply created_empty. exact Hc.
+Qed.
+
+Lemma tr_step : forall a s0 s s' U u ops sm,
+  tr_ok s0 s U sm -> wf_state O s -> struct_ok s sm -> sum_nodeltas O sm ->
+  apply_doc O a s = Ok (s', (u, ops)) -> (forall t c r, ~ lossy O a s t c r) -> act_names_ok a ->
+  tr_ok s0 s' (U ++ u) (fold_left (sum_apply O) ops sm).
+Proof.
+  intros a s0 s s' U u ops sm Htr Hwf [Hnames [Hkeys _]] Hnd Ha Hloss Hact s1 Hs1.
+  destruct (undo_inverse O L a s Hwf s' u ops Ha) as [s'' [Hrep Hseq]].
+  apply (seq_ex_sym O L) in Hs1.
+  destruct (replay_doc_cong O L _ _ _ _ _ Hs1 Hrep) as [sx [Hrepx Hseqx]].
+  apply (seq_ex_sym O L) in Hseqx.
+  pose proof (seq_ex_trans O L _ _ _ _ _ Hseqx Hseq) as Hsx.
+  assert (Hsx' : seq_ex O (created sm) sx s).
+  { eapply seq_ex_restrict; [exact Hsx|]. intros t c r Hex [Hx|Hx]; [|exfalso; exact (Hloss _ _ _ Hx)].
+    eapply sig_step; try eassumption. eapply existing_seq; eassumption. }
+  destruct (Htr sx Hsx') as [s2 [Hrep2 Hseq2]].
+  exists s2. split; [|exact Hseq2]. rewrite rev_app_distr, (replay_doc_app O), Hrepx. exact Hrep2.
+Qed.
+
+Fixpoint names_run (acts : list action) : Prop :=
+  match acts with [] => True | a :: rest => act_names_ok a /\ names_run rest end.
+
+(* everything the doc-action phase of a bundle keeps *)
+Record docs_inv (s0 : state) (m : mstate O) : Prop := mkDI {
+  di_tr : tr_ok s0 (m_doc O m) (m_undo O m) (m_sum O m);
+  di_wf : wf_state O (m_doc O m);
+  di_struct : struct_ok (m_doc O m) (m_sum O m);
+  di_nd : sum_nodeltas O (m_sum O m) }.
+
+Lemma docs_phase : forall acts s0 m m',
+  docs_inv s0 m -> lossless_run O (m_doc O m) acts -> names_run acts ->
+  steps O m (map (Doc O) acts) = Ok m' ->
+  docs_inv s0 m' /\ m_stored O m' = m_stored O m ++ acts.
+Proof.
+  induction acts as [|a rest IH]; intros s0 m m' Hinv Hl Hn H; cbn in H.
+  - inversion H; subst. split; [exact Hinv | rewrite app_nil_r; reflexivity].
+  - destruct (apply_doc O a (m_doc O m)) as [[s1 [u ops]]|] eqn:Ea; cbn in H; [|discriminate].
+    cbn in Hl. destruct Hl as [Hno Hrest]. rewrite Ea in Hrest. destruct Hn as [Hna Hnrest].
+    destruct Hinv as [Htr Hwf Hst Hnd].
+    set (m1 := mkM O s1 (m_stored O m ++ [a]) (m_undo O m ++ u) (fold_left (sum_apply O) ops (m_sum O m))) in *.
+    assert (Hinv1 : docs_inv s0 m1).
+    { constructor; cbn.
+      - eapply tr_step; eassumption.
+      - eapply apply_doc_wf; eassumption.
+      - eapply struct_step; eassumption.
+      - apply fold_sum_apply_nodeltas; [exact Hnd|]. eapply lossless_not_changes; eassumption. }
+    destruct (IH s0 m1 m' Hinv1 Hrest Hnrest H) as [Hinv' Hst'].
+    split; [exact Hinv'|]. rewrite Hst'. cbn. rewrite <- app_assoc. reflexivity.
+Qed.
+
+
+(* ------------------------------------------------------------------------------------------------ *)
+(* calc deltas *)
+
+Lemma cd_find_del : forall l c c', cd_find O (cd_del O l c) c' = if name_eqb c' c then None else cd_find O l c'.
+Proof.
+  induction l as [|[c0 d0] l IH]; intros c c'; cbn.
+  - destruct (name_eqb c' c); reflexivity.
+  - name_cases c c0.
+    + subst c0. rewrite IH. name_cases c' c; reflexivity.
+    + cbn. name_cases c' c0.
+      * subst c'. assert (name_eqb c0 c = false) as -> by (apply name_eqb_neq; congruence). reflexivity.
+      * apply IH.
+Qed.
+
+Lemma cd_find_put : forall l c d c', cd_find O (cd_put O l c d) c' = if name_eqb c' c then Some d else cd_find O l c'.
+Proof. intros. unfold cd_put. cbn. rewrite cd_find_del. destruct (name_eqb c' c); reflexivity. Qed.
+
+Lemma delta_get_put : forall d r x r', delta_get O (delta_put O d r x) r' = if Z.eqb r' r then Some x else delta_get O d r'.
+Proof.
+  induction d as [|[r0 y] d IH]; intros r x r'; cbn.
+  - destruct (Z.eqb r' r); reflexivity.
+  - destruct (Z.eqb_spec r r0) as [->|Hne]; cbn.
+    + destruct (Z.eqb r' r0); reflexivity.
+    + destruct (Z.eqb_spec r' r0) as [->|Hne'].
+      * destruct (Z.eqb_spec r0 r); [congruence | reflexivity].
+      * apply IH.
+Qed.
+
+Lemma delta_get_add : forall d r b a r',
+  delta_get O (delta_add O d (r, (b, a))) r' =
+  if Z.eqb r' r then Some (match delta_get O d r with Some (b0, _) => b0 | None => b end, a) else delta_get O d r'.
+Proof.
+  intros d r b a r'. unfold delta_add. destruct (delta_get O d r) as [[b0 a0]|]; rewrite delta_get_put; reflexivity.
+Qed.
+
+Definition delta_of (sm : summary) (t c : name) : coldelta O :=
+  match td_find O (sm_tables O sm) t with
+  | Some td => match cd_find O (td_deltas O td) c with Some cd => cd | None => [] end
+  | None => []
+  end.
+
+Lemma add_changes_spec : forall (sm : summary) t c chs,
+  let sm' := sum_apply O sm (SAddChanges O t c chs) in
+  (forall t', tab_created sm' t' = tab_created sm t') /\
+  (forall t' c', col_created sm' t' c' = col_created sm t' c') /\
+  (forall t' r, row_before sm' t' r = row_before sm t' r) /\
+  (forall t' r, row_after sm' t' r = row_after sm t' r) /\
+  (forall t' c', delta_of sm' t' c' =
+                 if name_eqb t' t && name_eqb c' c then fold_left (delta_add O) chs (delta_of sm t c) else delta_of sm t' c').
+Proof.
+  intros sm t c chs sm'. unfold sm'. cbn [sum_apply]. repeat split.
+  - intros t' c'. unfold col_created. rewrite td_find_with_table. name_cases t' t; [|reflexivity].
+    subst t'. cbn [td_colren]. apply for_table_colren_created.
+  - intros t' r. unfold row_before. rewrite td_find_with_table. name_cases t' t; [|reflexivity].
+    subst t'. cbn [td_before]. apply for_table_before.
+  - intros t' r. unfold row_after. rewrite td_find_with_table. name_cases t' t; [|reflexivity].
+    subst t'. cbn [td_after]. apply for_table_after.
+  - intros t' c'. unfold delta_of at 1. rewrite td_find_with_table. name_cases t' t; cbn [andb]; [|reflexivity].
+    subst t'. cbn [td_deltas]. rewrite cd_find_put. name_cases c' c.
+    + subst c'. unfold delta_of, for_table. destruct (td_find O (sm_tables O sm) t); reflexivity.
+    + unfold delta_of, for_table. destruct (td_find O (sm_tables O sm) t); reflexivity.
+Qed.
+
+(* one column during the calc phase: Cd is the column as the doc actions left it, C the current one *)
+Definition col_ci (cd : coldelta O) (C Cd : column) (rows : list Z) : Prop :=
+  c_info O C = c_info O Cd /\
+  forall r, In r rows ->
+    match delta_get O cd r with
+    | Some (b, a) => venc O (col_get O C r) (vnorm O (ci_type (c_info O C)) a) = true /\ venc O b (col_get O Cd r) = true
+    | None => venc O (col_get O C r) (col_get O Cd r) = true
+    end.
+
+(* SC2: the `before` of the first change of a row equals the current cell (up to encoding); and the rows exist *)
+Fixpoint calc_ok (C : column) (cd : coldelta O) (rows : list Z) (chs : list (change O)) : Prop :=
+  match chs with
+  | [] => True
+  | (r, (b, a)) :: rest =>
+      In r rows /\
+      match delta_get O cd r with Some _ => True | None => venc O b (col_get O C r) = true end /\
+      calc_ok (col_set O C r a) (delta_add O cd (r, (b, a))) rows rest
+  end.
+
+Lemma col_ci_calc : forall chs C cd Cd rows,
+  col_ci cd C Cd rows -> calc_ok C cd rows chs ->
+  col_ci (fold_left (delta_add O) chs cd) (fold_left (fun C ch => col_set O C (fst ch) (snd (snd ch))) chs C) Cd rows.
+Proof.
+  induction chs as [|[r [b a]] rest IH]; intros C cd Cd rows Hci Hok; cbn [fold_left fst snd]; [exact Hci|].
+  cbn [calc_ok] in Hok. destruct Hok as [Hr [Hb Hrest]]. apply IH; [|exact Hrest].
+  destruct Hci as [Hinfo Hcells]. split; [exact Hinfo|].
+  intros r' Hr'. rewrite delta_get_add, col_get_set. cbn [col_set c_info]. specialize (Hcells r' Hr').
+  destruct (Z.eqb_spec r' r) as [->|Hne]; [|exact Hcells].
+  split; [apply (venc_refl O L)|].
+  destruct (delta_get O cd r) as [[b0 a0]|]; [apply Hcells|].
+  eapply (venc_trans O L); eassumption.
+Qed.
+
+
+Definition calc_rel (sd : state) (sm : summary) (s : state) : Prop :=
+  forall t, match find_table O s t, find_table O sd t with
+            | None, None => True
+            | Some T, Some Td =>
+                (forall r, In r (t_rows O T) <-> In r (t_rows O Td)) /\
+                forall c, match find_col O (t_cols O T) c, find_col O (t_cols O Td) c with
+                          | None, None => True
+                          | Some C, Some Cd => col_ci (delta_of sm t c) C Cd (t_rows O T)
+                          | _, _ => False
+                          end
+            | _, _ => False
+            end.
+
+Definition deltas_live (sm : summary) (s : state) : Prop :=
+  forall t c r, delta_get O (delta_of sm t c) r <> None -> existing s t c r.
+
+Definition same_marks (sm1 sm2 : summary) : Prop :=
+  (forall t, tab_created sm1 t = tab_created sm2 t) /\
+  (forall t c, col_created sm1 t c = col_created sm2 t c) /\
+  (forall t r, row_before sm1 t r = row_before sm2 t r) /\
+  (forall t r, row_after sm1 t r = row_after sm2 t r).
+
+Record calc_inv (sd : state) (smd : summary) (m : mstate O) : Prop := mkCI {
+  ci_rel : calc_rel sd (m_sum O m) (m_doc O m);
+  ci_live : deltas_live (m_sum O m) (m_doc O m);
+  ci_marks : same_marks (m_sum O m) smd }.
+
+Lemma nodeltas_delta_of : forall sm t c, sum_nodeltas O sm -> delta_of sm t c = [].
+Proof.
+  intros sm t c H. unfold delta_of. destruct (td_find O (sm_tables O sm) t) as [td|] eqn:E; [|reflexivity].
+  rewrite (H _ _ E). reflexivity.
+Qed.
+
+Lemma calc_inv_init : forall sd smd, sum_nodeltas O smd -> calc_inv sd smd (mkM O sd [] [] smd) -> True.
+Proof. trivial. Qed.
+
+Lemma calc_rel_init : forall sd smd, sum_nodeltas O smd -> calc_rel sd smd sd.
+Proof.
+  intros sd smd Hnd t. destruct (find_table O sd t) as [T|]; [|exact I].
+  split; [tauto|]. intro c. destruct (find_col O (t_cols O T) c) as [C|]; [|exact I].
+  rewrite nodeltas_delta_of by exact Hnd. split; [reflexivity|]. intros r _. cbn. apply (venc_refl O L).
+Qed.
+
+Definition calc_event_ok (m : mstate O) (t c : name) (chs : list (change O)) : Prop :=
+  match find_table O (m_doc O m) t with
+  | Some T => match find_col O (t_cols O T) c with
+              | Some C => calc_ok C (delta_of (m_sum O m) t c) (t_rows O T) chs
+              | None => False
+              end
+  | None => False
+  end.
+
+Lemma fold_col_set_id : forall chs C,
+  c_id O (fold_left (fun C (ch : change O) => col_set O C (fst ch) (snd (snd ch))) chs C) = c_id O C.
+Proof. induction chs as [|ch chs IH]; intro C; cbn; [reflexivity|]. rewrite IH. reflexivity. Qed.
+
+Lemma delta_get_fold_add : forall chs cd r,
+  delta_get O (fold_left (delta_add O) chs cd) r <> None -> delta_get O cd r <> None \/ In r (map fst chs).
+Proof.
+  induction chs as [|[r0 [b a]] chs IH]; intros cd r H; cbn [fold_left map fst] in *; [left; exact H|].
+  destruct (IH _ _ H) as [H1|H1]; [|right; right; exact H1].
+  rewrite delta_get_add in H1. destruct (Z.eqb_spec r r0) as [->|Hne]; [right; left; reflexivity | left; exact H1].
+Qed.
+
+Lemma calc_ok_rows : forall chs C cd rows, calc_ok C cd rows chs -> forall r, In r (map fst chs) -> In r rows.
+Proof.
+  induction chs as [|[r0 [b a]] chs IH]; intros C cd rows H r Hr; cbn in *; [contradiction|].
+  destruct H as [H0 [_ Hrest]]. destruct Hr as [<-|Hr]; [exact H0 | eapply IH; eassumption].
+Qed.
+
+Lemma calc_step : forall sd smd m m' t c chs,
+  calc_inv sd smd m -> calc_event_ok m t c chs -> step O m (Calc O t c chs) = Ok m' ->
+  calc_inv sd smd m' /\ m_undo O m' = m_undo O m /\ m_stored O m' = m_stored O m.
+Proof.
+  intros sd smd m m' t c chs [Hrel Hlive Hmarks] Hok H. cbn [step] in H.
+  unfold calc_cells in H. unfold calc_event_ok in Hok.
+  destruct (find_table O (m_doc O m) t) as [T|] eqn:Ef; [|contradiction].
+  destruct (find_col O (t_cols O T) c) as [C|] eqn:Ec; [|contradiction].
+  pose proof (add_changes_spec (m_sum O m) t c chs) as [Ht [Hc [Hb [Ha Hd]]]]. cbv zeta in Ht, Hc, Hb, Ha, Hd.
+  remember (sum_apply O (m_sum O m) (SAddChanges O t c chs)) as sm1 eqn:Esm1.
+  cbn [bind] in H. inversion H; subst m'; clear H. cbn [m_doc m_undo m_stored m_sum].
+  split; [|split; reflexivity].
+  pose proof (find_table_id O _ _ _ Ef) as HidT. pose proof (find_col_id O _ _ _ Ec) as HidC.
+  set (C' := fold_left (fun C ch => col_set O C (fst ch) (snd (snd ch))) chs C) in *.
+  assert (HidC' : c_id O C' = c) by (unfold C'; rewrite fold_col_set_id; exact HidC).
+  constructor; cbn [m_doc m_sum].
+  - intro t0. rewrite find_put_table by exact HidT. specialize (Hrel t0). name_cases t0 t.
+    + subst t0. rewrite Ef in *. destruct (find_table O sd t) as [Td|]; [|contradiction].
+      destruct Hrel as [Hrows Hcols]. split; [exact Hrows|]. cbn [t_cols t_rows].
+      intro c0. rewrite find_put_col by exact HidC'. rewrite Hd, name_eqb_refl. cbn [andb]. specialize (Hcols c0).
+      name_cases c0 c.
+      * subst c0. rewrite Ec in *. destruct (find_col O (t_cols O Td) c) as [Cd|]; [|contradiction].
+        apply col_ci_calc; assumption.
+      * exact Hcols.
+    + destruct (find_table O (m_doc O m) t0), (find_table O sd t0); try exact Hrel.
+      destruct Hrel as [Hrows Hcols]. split; [exact Hrows|]. intro c0. rewrite Hd, E. cbn [andb]. exact (Hcols c0).
+  - intros t0 c0 r Hg. rewrite Hd in Hg.
+    assert (Hput : forall t1 c1 r1, existing (m_doc O m) t1 c1 r1 ->
+                   existing (put_table O (m_doc O m) t (mkTab O (t_id O T) (t_rows O T) (put_col O (t_cols O T) c C'))) t1 c1 r1).
+    { intros t1 c1 r1 [T1 [C1 [Hf1 [Hc1 Hr1]]]]. unfold existing. rewrite find_put_table by exact HidT.
+      name_cases t1 t.
+      - subst t1. rewrite Ef. assert (T1 = T) by congruence. subst T1.
+        exists (mkTab O (t_id O T) (t_rows O T) (put_col O (t_cols O T) c C')).
+        cbn [t_cols t_rows]. rewrite find_put_col by exact HidC'. name_cases c1 c.
+        + subst c1. rewrite Ec. exists C'. split; [reflexivity|]. split; [reflexivity | exact Hr1].
+        + exists C1. split; [reflexivity|]. split; [exact Hc1 | exact Hr1].
+      - exists T1, C1. auto. }
+    destruct (name_eqb t0 t && name_eqb c0 c) eqn:Etc; [|apply Hput; apply Hlive; exact Hg].
+    apply andb_true_iff in Etc. destruct Etc as [Et Ecc]. apply name_eqb_eq in Et. apply name_eqb_eq in Ecc. subst t0 c0.
+    apply Hput. destruct (delta_get_fold_add _ _ _ Hg) as [H1|H1]; [apply Hlive; exact H1|].
+    exists T, C. split; [exact Ef|]. split; [exact Ec|]. eapply calc_ok_rows; eassumption.
+  - destruct Hmarks as [M1 [M2 [M3 M4]]]. repeat split; intros; rewrite ?Ht, ?Hc, ?Hb, ?Ha; auto.
+Qed.
+
+
+(* ------------------------------------------------------------------------------------------------ *)
+(* the flush: what _changes_to_actions appends to the undo list for one column *)
+
+Lemma insert_by_In : forall (A : Type) (ltb : A -> A -> bool) x l y, In y (insert_by ltb x l) <-> y = x \/ In y l.
+Proof.
+  intros A ltb x l y. induction l as [|z l IH]; cbn; [intuition|].
+  destruct (ltb z x); cbn; [rewrite IH|]; intuition.
+Qed.
+
+Lemma sort_by_In : forall (A : Type) (ltb : A -> A -> bool) l y, In y (sort_by ltb l) <-> In y l.
+Proof.
+  intros A ltb l y. unfold sort_by. induction l as [|x l IH]; cbn; [tauto|].
+  rewrite insert_by_In, IH. intuition.
+Qed.
+
+Definition changed_rows (cd : coldelta O) : list Z :=
+  sort_by Z.ltb (map fst (filter (fun ch : change O => negb (venc O (fst (snd ch)) (snd (snd ch)))) cd)).
+
+(* the rows whose `before` value is put back *)
+Definition restore_rows (sm : summary) (t c : name) (cd : coldelta O) : list Z :=
+  if sum_is_created O sm t c then []
+  else filter (fun r => match row_before sm t r with Some false => false | _ => true end) (changed_rows cd).
+
+Definition restore_block (sm : summary) (t c : name) (cd : coldelta O) : list action :=
+  match restore_rows sm t c cd with
+  | [] => []
+  | rows => [update_action O t c cd rows false]
+  end.
+
+Lemma changed_rows_in : forall cd r, In r (changed_rows cd) -> delta_get O cd r <> None.
+Proof.
+  intros cd r H. unfold changed_rows in H. apply sort_by_In in H. apply in_map_iff in H.
+  destruct H as [[r' ba] [Hr Hin]]. cbn in Hr. subst r'. apply filter_In in Hin. destruct Hin as [Hin _].
+  clear -Hin. induction cd as [|[r0 x] cd IH]; cbn in *; [contradiction|].
+  destruct (Z.eqb_spec r r0); [discriminate|]. destruct Hin as [Hin|Hin]; [inversion Hin; congruence | apply IH; exact Hin].
+Qed.
+
+Lemma filter_same : forall (A : Type) (f g : A -> bool) l, (forall x, In x l -> f x = g x) -> filter f l = filter g l.
+Proof.
+  intros A f g l H. induction l as [|x l IH]; cbn; [reflexivity|].
+  rewrite (H x) by (left; reflexivity). rewrite IH; [reflexivity|]. intros y Hy. apply H. right. exact Hy.
+Qed.
+
+Lemma filter_none : forall (A : Type) (f : A -> bool) l, (forall x, In x l -> f x = false) -> filter f l = [].
+Proof.
+  intros A f l H. induction l as [|x l IH]; cbn; [reflexivity|].
+  rewrite (H x) by (left; reflexivity). apply IH. intros y Hy. apply H. right. exact Hy.
+Qed.
+
+Lemma cta_undo : forall (sm : summary) t c cd S U td,
+  is_defunct t = false -> is_defunct c = false -> td_find O (sm_tables O sm) t = Some td ->
+  (forall r, delta_get O cd r <> None -> row_after sm t r <> Some false) ->
+  exists S', changes_to_actions O sm t c cd (S, U) = Ok (S', U ++ restore_block sm t c cd).
+Proof.
+  intros sm t c cd S U td Hdt Hdc Htd Hafter. unfold changes_to_actions.
+  assert (Hnil : cd = [] \/ cd <> []) by (destruct cd; [left | right]; congruence).
+  destruct Hnil as [->|Hne].
+  - exists S. unfold restore_block, restore_rows, changed_rows. cbn.
+    destruct (sum_is_created O sm t c); rewrite app_nil_r; reflexivity.
+  - rewrite match_nonnil by exact Hne. rewrite Hdt, Hdc, Htd. cbn [orb negb andb].
+    pose proof (root_name_not_defunct t Hdt) as Ht. pose proof (root_name_not_defunct c Hdc) as Hc.
+    rewrite Ht, Hc.
+    eexists. unfold restore_block, restore_rows.
+    match goal with |- context [sort_by Z.ltb ?l] => change (sort_by Z.ltb l) with (changed_rows cd) end.
+    set (cr := changed_rows cd).
+    destruct (sum_is_created O sm t c) eqn:Ecr; cbn [andb].
+    + rewrite app_nil_r. reflexivity.
+    + unfold filter_out_new_rows, filter_out_gone_rows. rewrite Htd.
+      set (rb := filter (fun r => match pres_get (td_before O td) r with Some false => false | _ => true end) cr).
+      assert (Hrb : rb = filter (fun r => match row_before sm t r with Some false => false | _ => true end) cr).
+      { unfold rb. apply filter_same. intros r _. unfold row_before. rewrite Htd. reflexivity. }
+      assert (Hpres : filter (fun r => match pres_get (td_after O td) r with Some false => false | _ => true end) rb = rb).
+      { apply filter_all. intros r Hr. unfold rb in Hr. apply filter_In in Hr. destruct Hr as [Hr _].
+        pose proof (Hafter r (changed_rows_in cd r Hr)) as Ha. unfold row_after in Ha. rewrite Htd in Ha.
+        destruct (pres_get (td_after O td) r) as [[|]|]; try reflexivity. congruence. }
+      rewrite Hpres.
+      assert (Hdef : filter (fun r => negb (zmem r rb)) rb = []).
+      { apply filter_none. intros r Hr. apply negb_false_iff. apply zmem_In. exact Hr. }
+      rewrite Hdef. rewrite <- Hrb. destruct rb; [rewrite app_nil_r|]; reflexivity.
+Qed.
+
+
+Lemma cta_nil : forall (sm : summary) t c so, changes_to_actions O sm t c [] so = Ok so.
+Proof. reflexivity. Qed.
+
+Lemma restore_block_nil : forall (sm : summary) t c, restore_block sm t c [] = [].
+Proof. intros. unfold restore_block, restore_rows, changed_rows. cbn. destruct (sum_is_created O sm t c); reflexivity. Qed.
+
+(* the condition under which a column delta is flushed without front inserts *)
+Definition delta_ok (sm : summary) (t c : name) (cd : coldelta O) : Prop :=
+  cd <> [] -> is_defunct t = false /\ is_defunct c = false /\
+              forall r, delta_get O cd r <> None -> row_after sm t r <> Some false.
+
+Lemma cta_undo' : forall (sm : summary) t c cd S U td,
+  td_find O (sm_tables O sm) t = Some td -> delta_ok sm t c cd ->
+  exists S', changes_to_actions O sm t c cd (S, U) = Ok (S', U ++ restore_block sm t c cd).
+Proof.
+  intros sm t c cd S U td Htd Hok.
+  assert (Hnil : cd = [] \/ cd <> []) by (destruct cd; [left | right]; congruence).
+  destruct Hnil as [->|Hne].
+  - exists S. rewrite cta_nil, restore_block_nil, app_nil_r. reflexivity.
+  - destruct (Hok Hne) as [Hdt [Hdc Ha]]. eapply cta_undo; eassumption.
+Qed.
+
+Definition cols_block (sm : summary) (t : name) (td : tdelta O) (keys : list name) : list action :=
+  flat_map (fun c => match cd_find O (td_deltas O td) c with Some cd => restore_block sm t c cd | None => [] end) keys.
+
+Lemma flush_cols : forall (sm : summary) t td keys S U,
+  td_find O (sm_tables O sm) t = Some td ->
+  (forall c cd, In c keys -> cd_find O (td_deltas O td) c = Some cd -> delta_ok sm t c cd) ->
+  exists S',
+    fold_left (fun acc c => bind acc (fun so' => match cd_find O (td_deltas O td) c with
+                                                 | Some cd => changes_to_actions O sm t c cd so'
+                                                 | None => Ok so'
+                                                 end)) keys (Ok (S, U)) =
+    Ok (S', U ++ cols_block sm t td keys).
+Proof.
+  intros sm t td keys. induction keys as [|c keys IH]; intros S U Htd Hok; cbn.
+  - exists S. rewrite app_nil_r. reflexivity.
+  - destruct (cd_find O (td_deltas O td) c) as [cd|] eqn:Ec.
+    + destruct (cta_undo' sm t c cd S U td Htd (Hok c cd (or_introl eq_refl) Ec)) as [S1 H1]. rewrite H1.
+      destruct (IH S1 (U ++ restore_block sm t c cd) Htd) as [S' H'].
+      { intros c0 cd0 Hin. apply Hok. right. exact Hin. }
+      exists S'. rewrite H'. rewrite <- app_assoc. reflexivity.
+    + destruct (IH S U Htd) as [S' H'].
+      { intros c0 cd0 Hin. apply Hok. right. exact Hin. }
+      exists S'. exact H'.
+Qed.
+
+Definition table_block (sm : summary) (t : name) : list action :=
+  match td_find O (sm_tables O sm) t with
+  | Some td => cols_block sm t td (sorted_keys (td_deltas O td))
+  | None => []
+  end.
+
+Definition all_deltas_ok (sm : summary) : Prop :=
+  forall t td c cd, td_find O (sm_tables O sm) t = Some td -> cd_find O (td_deltas O td) c = Some cd -> delta_ok sm t c cd.
+
+Lemma flush_tables : forall (sm : summary) keys S U,
+  all_deltas_ok sm ->
+  exists S', fold_left (fun acc t => bind acc (fun so' => flush_table O sm t so')) keys (Ok (S, U)) =
+             Ok (S', U ++ flat_map (table_block sm) keys).
+Proof.
+  intros sm keys. induction keys as [|t keys IH]; intros S U Hok; cbn.
+  - exists S. rewrite app_nil_r. reflexivity.
+  - unfold flush_table at 2. unfold table_block at 1.
+    destruct (td_find O (sm_tables O sm) t) as [td|] eqn:Etd.
+    + destruct (flush_cols sm t td (sorted_keys (td_deltas O td)) S U Etd) as [S1 H1].
+      { intros c cd _ Hc. eapply Hok; eassumption. }
+      rewrite H1. destruct (IH S1 (U ++ cols_block sm t td (sorted_keys (td_deltas O td))) Hok) as [S' H'].
+      exists S'. rewrite H'. rewrite <- app_assoc. reflexivity.
+    + destruct (IH S U Hok) as [S' H']. exists S'. exact H'.
+Qed.
+
+Definition all_blocks (sm : summary) : list action := flat_map (table_block sm) (sorted_keys (sm_tables O sm)).
+
+Lemma flush_all_undo : forall (sm : summary) S U, all_deltas_ok sm ->
+  exists S', flush_all O sm (S, U) = Ok (S', U ++ all_blocks sm).
+Proof. intros sm S U Hok. unfold flush_all, all_blocks. apply flush_tables. exact Hok. Qed.
+
+
+(* ------------------------------------------------------------------------------------------------ *)
+(* replaying the restore blocks brings the cells back to what the doc actions left (except created cells) *)
+
+Definition pair_mem (t c : name) (K : list (name * name)) : Prop := In (t, c) K.
+
+(* K: the columns whose block has been replayed already *)
+Definition near (K : list (name * name)) (sd : state) (sm : summary) (s1 : state) : Prop :=
+  forall t, match find_table O s1 t, find_table O sd t with
+            | None, None => True
+            | Some T, Some Td =>
+                (forall r, In r (t_rows O T) <-> In r (t_rows O Td)) /\
+                forall c, match find_col O (t_cols O T) c, find_col O (t_cols O Td) c with
+                          | None, None => True
+                          | Some C, Some Cd =>
+                              c_info O C = c_info O Cd /\
+                              forall r, In r (t_rows O T) ->
+                                created sm t c r \/ venc O (col_get O C r) (col_get O Cd r) = true \/
+                                (~ pair_mem t c K /\
+                                 exists b a, delta_get O (delta_of sm t c) r = Some (b, a) /\
+                                             venc O (col_get O C r) (vnorm O (ci_type (c_info O C)) a) = true)
+                          | _, _ => False
+                          end
+            | _, _ => False
+            end.
+
+(* the `before` of every delta is the value the doc actions left *)
+Definition befores_ok (sd : state) (sm : summary) : Prop :=
+  forall t Td c Cd r b a, find_table O sd t = Some Td -> find_col O (t_cols O Td) c = Some Cd ->
+    delta_get O (delta_of sm t c) r = Some (b, a) -> venc O b (col_get O Cd r) = true.
+
+Lemma near_of_calc_rel : forall sd sm s, calc_rel sd sm s -> near [] sd sm s.
+Proof.
+  intros sd sm s H t. specialize (H t).
+  destruct (find_table O s t) as [T|], (find_table O sd t) as [Td|]; try exact H.
+  destruct H as [Hr Hc]. split; [exact Hr|]. intro c. specialize (Hc c).
+  destruct (find_col O (t_cols O T) c) as [C|], (find_col O (t_cols O Td) c) as [Cd|]; try exact Hc.
+  destruct Hc as [Hi Hcells]. split; [exact Hi|]. intros r Hin. specialize (Hcells r Hin).
+  destruct (delta_get O (delta_of sm t c) r) as [[b a]|] eqn:Ed.
+  - right. right. split; [intros []|]. exists b, a. split; [reflexivity | apply Hcells].
+  - right. left. exact Hcells.
+Qed.
+
+Lemma befores_of_calc_rel : forall sd sm s, calc_rel sd sm s -> deltas_live sm s -> befores_ok sd sm.
+Proof.
+  intros sd sm s H Hlive t Td c Cd r b a Hf Hc Hd.
+  assert (Hex : existing s t c r) by (apply Hlive; rewrite Hd; discriminate).
+  destruct Hex as [T [C [Hft [Hfc Hr]]]]. specialize (H t). rewrite Hft, Hf in H.
+  destruct H as [_ Hcols]. specialize (Hcols c). rewrite Hfc, Hc in Hcols.
+  destruct Hcols as [_ Hcells]. specialize (Hcells r Hr). rewrite Hd in Hcells. apply Hcells.
+Qed.
+
+Lemma near_final : forall K sd sm s1,
+  near K sd sm s1 -> (forall t c r, delta_get O (delta_of sm t c) r <> None -> pair_mem t c K) ->
+  seq_ex O (created sm) s1 sd.
+Proof.
+  intros K sd sm s1 H HK t. specialize (H t).
+  destruct (find_table O s1 t) as [T|], (find_table O sd t) as [Td|]; cbn; try exact H.
+  destruct H as [Hr Hc]. split; [exact Hr|]. intro c. specialize (Hc c).
+  destruct (find_col O (t_cols O T) c) as [C|], (find_col O (t_cols O Td) c) as [Cd|]; cbn; try exact Hc.
+  destruct Hc as [Hi Hcells]. split; [exact Hi|]. intros r Hin.
+  destruct (Hcells r Hin) as [H1|[H1|[Hn [b [a [Hd _]]]]]]; [left; exact H1 | right; exact H1|].
+  exfalso. apply Hn. apply (HK t c r). rewrite Hd. discriminate.
+Qed.
+
+
+Lemma changed_rows_complete : forall cd r b a,
+  delta_get O cd r = Some (b, a) -> venc O b a = false -> In r (changed_rows cd).
+Proof.
+  intros cd r b a Hd He. unfold changed_rows. apply sort_by_In. apply in_map_iff.
+  exists (r, (b, a)). split; [reflexivity|]. apply filter_In. split; [|cbn; rewrite He; reflexivity].
+  induction cd as [|[r0 x] cd IH]; cbn in *; [discriminate|].
+  destruct (Z.eqb_spec r r0) as [->|Hne]; [left; congruence | right; apply IH; exact Hd].
+Qed.
+
+Lemma set_val_delta_values : forall cd rows r,
+  (forall r', In r' rows -> delta_get O cd r' <> None) ->
+  set_val O rows (delta_values O cd rows false) r =
+  if zmem r rows then match delta_get O cd r with Some (b, _) => Some b | None => None end else None.
+Proof.
+  intros cd rows r. induction rows as [|r0 rows IH]; intro H; cbn; [reflexivity|].
+  unfold delta_values in *. cbn [flat_map].
+  destruct (delta_get O cd r0) as [[b0 a0]|] eqn:E0; [|exfalso; apply (H r0); [left; reflexivity | exact E0]].
+  cbn [app set_val]. rewrite IH by (intros r' Hr'; apply H; right; exact Hr').
+  destruct (zmem r rows) eqn:Ez.
+  - destruct (delta_get O cd r) as [[b a]|] eqn:E.
+    + destruct (Z.eqb r r0); reflexivity.
+    + exfalso. apply (H r); [right; apply zmem_In; exact Ez | exact E].
+  - destruct (Z.eqb_spec r r0) as [->|Hne]; [rewrite E0; reflexivity | reflexivity].
+Qed.
+
+Lemma delta_values_length : forall cd rows after,
+  (forall r', In r' rows -> delta_get O cd r' <> None) -> length (delta_values O cd rows after) = length rows.
+Proof.
+  intros cd rows after. induction rows as [|r0 rows IH]; intro H; cbn; [reflexivity|].
+  unfold delta_values in *. cbn [flat_map].
+  destruct (delta_get O cd r0) as [[b0 a0]|] eqn:E0; [|exfalso; apply (H r0); [left; reflexivity | exact E0]].
+  cbn. f_equal. apply IH. intros r' Hr'. apply H. right. exact Hr'.
+Qed.
+
+Lemma restore_rows_delta : forall sm t c cd r, In r (restore_rows sm t c cd) -> delta_get O cd r <> None.
+Proof.
+  intros sm t c cd r H. unfold restore_rows in H. destruct (sum_is_created O sm t c); [contradiction|].
+  apply filter_In in H. apply changed_rows_in. apply H.
+Qed.
+
+(* a row with a delta that is not among the restored rows is either created or already equal (its delta did not
+   change the encoding) *)
+Lemma unrestored_row_fine : forall sd sm t Td c Cd (C : column) r b a,
+  wf_state O sd -> befores_ok sd sm ->
+  find_table O sd t = Some Td -> find_col O (t_cols O Td) c = Some Cd -> In r (t_rows O Td) ->
+  c_info O C = c_info O Cd ->
+  delta_get O (delta_of sm t c) r = Some (b, a) ->
+  ~ In r (restore_rows sm t c (delta_of sm t c)) ->
+  venc O (col_get O C r) (vnorm O (ci_type (c_info O C)) a) = true ->
+  created sm t c r \/ venc O (col_get O C r) (col_get O Cd r) = true.
+Proof.
+  intros sd sm t Td c Cd C r b a Hwf Hbef Hf Hc Hr Hinfo Hd Hnot Hcell.
+  unfold restore_rows in Hnot.
+  destruct (sum_is_created O sm t c) eqn:Ecr; [left; left; exact Ecr|].
+  destruct (venc O b a) eqn:Eba.
+  - right. pose proof (Hbef _ _ _ _ _ _ _ Hf Hc Hd) as Hb.
+    destruct (Hwf _ _ Hf) as [_ [_ Hnorm]]. pose proof (Hnorm _ _ Hc r Hr) as Hn.
+    rewrite Hinfo in Hcell.
+    eapply (venc_trans O L); [exact Hcell|].
+    eapply (venc_trans O L); [apply (vnorm_enc O L); apply (venc_sym O L); exact Eba|].
+    eapply (venc_trans O L); [apply (vnorm_enc O L); exact Hb | exact Hn].
+  - left. right. pose proof (changed_rows_complete _ _ _ _ Hd Eba) as Hin.
+    destruct (row_before sm t r) as [[|]|] eqn:Erb.
+    + exfalso. apply Hnot. apply filter_In. split; [exact Hin | rewrite Erb; reflexivity].
+    + unfold row_before in Erb. destruct (td_find O (sm_tables O sm) t) as [td|]; [|discriminate]. exists td. auto.
+    + exfalso. apply Hnot. apply filter_In. split; [exact Hin | rewrite Erb; reflexivity].
+Qed.
+
+
+Definition live_in (sd : state) (sm : summary) : Prop :=
+  forall t c r, delta_get O (delta_of sm t c) r <> None -> existing sd t c r.
+
+Lemma near_mono_cell : forall K t c t1 c1, ~ pair_mem t1 c1 K -> (t1, c1) <> (t, c) -> ~ pair_mem t1 c1 ((t, c) :: K).
+Proof. intros K t c t1 c1 H Hne [Heq|Hin]; [apply Hne; congruence | apply H; exact Hin]. Qed.
+
+Lemma block_step : forall K sd sm s1 t c,
+  near K sd sm s1 -> wf_state O sd -> befores_ok sd sm -> live_in sd sm ->
+  exists s', replay_doc O (rev (restore_block sm t c (delta_of sm t c))) s1 = Ok s' /\ near ((t, c) :: K) sd sm s'.
+Proof.
+  intros K sd sm s1 t c Hnear Hwf Hbef Hlive.
+  set (cd := delta_of sm t c). set (rows := restore_rows sm t c cd).
+  assert (Hrows_delta : forall r, In r rows -> delta_get O cd r <> None) by (intros r Hr; eapply restore_rows_delta; exact Hr).
+  (* what `near` must say for column (t, c) once its block is replayed, given a table that agrees on that column *)
+  assert (Hfine : forall Td Cd (C : column) r b a,
+            find_table O sd t = Some Td -> find_col O (t_cols O Td) c = Some Cd -> In r (t_rows O Td) ->
+            c_info O C = c_info O Cd -> delta_get O cd r = Some (b, a) -> ~ In r rows ->
+            venc O (col_get O C r) (vnorm O (ci_type (c_info O C)) a) = true ->
+            created sm t c r \/ venc O (col_get O C r) (col_get O Cd r) = true).
+  { intros. eapply unrestored_row_fine; eassumption. }
+  unfold restore_block. fold cd. fold rows.
+  assert (Hnil : rows = [] \/ rows <> []) by (destruct rows; [left | right]; congruence).
+  destruct Hnil as [Hnil|Hne].
+  - rewrite Hnil. cbn. exists s1. split; [reflexivity|].
+    intro t1. specialize (Hnear t1).
+    destruct (find_table O s1 t1) as [T|] eqn:Ef1, (find_table O sd t1) as [Td|] eqn:Efd; try exact Hnear.
+    destruct Hnear as [Hr Hc]. split; [exact Hr|]. intro c1. specialize (Hc c1).
+    destruct (find_col O (t_cols O T) c1) as [C|] eqn:Ec1, (find_col O (t_cols O Td) c1) as [Cd|] eqn:Ecd; try exact Hc.
+    destruct Hc as [Hi Hcells]. split; [exact Hi|]. intros r Hin.
+    destruct (Hcells r Hin) as [H1|[H1|[Hn [b [a [Hd Hv]]]]]]; [left; exact H1 | right; left; exact H1|].
+    destruct (name_eq_dec t1 t) as [->|Hnt].
+    + destruct (name_eq_dec c1 c) as [->|Hnc].
+      * destruct (Hfine Td Cd C r b a Efd Ecd (proj1 (Hr r) Hin) Hi Hd) as [H2|H2]; [rewrite Hnil; intros [] | exact Hv | left; exact H2 | right; left; exact H2].
+      * right. right. split; [apply near_mono_cell; [exact Hn | congruence]|]. eauto.
+    + right. right. split; [apply near_mono_cell; [exact Hn | congruence]|]. eauto.
+  - rewrite (match_nonnil _ _ rows _ _ Hne).
+    (* the table and the column exist *)
+    destruct rows as [|r0 rows0] eqn:Erows; [contradiction|]. rewrite <- Erows in *. clear Hne.
+    assert (Hr0 : In r0 rows) by (rewrite Erows; left; reflexivity).
+    destruct (Hlive t c r0 (Hrows_delta r0 Hr0)) as [Td [Cd [Efd [Ecd _]]]].
+    pose proof (Hnear t) as Hnt. rewrite Efd in Hnt.
+    destruct (find_table O s1 t) as [T|] eqn:Ef1; [|contradiction].
+    destruct Hnt as [Hrws Hcols]. pose proof (Hcols c) as Hcc. rewrite Ecd in Hcc.
+    destruct (find_col O (t_cols O T) c) as [C|] eqn:Ec1; [|contradiction].
+    destruct Hcc as [Hinfo Hcells].
+    pose proof (find_table_id O _ _ _ Ef1) as HidT.
+    set (vals := delta_values O cd rows false).
+    assert (Hlen : length vals = length rows) by (apply delta_values_length; exact Hrows_delta).
+    assert (Hcid : c <> id_name) by (eapply wf_col_not_id; [apply (Hwf _ _ Efd) | exact Ecd]).
+    assert (Hok : colvals_ok O rows [(c, vals)] = true).
+    { unfold colvals_ok. cbn [map fst snd nodup_names nmem forallb negb andb].
+      rewrite (proj2 (Nat.eqb_eq _ _) Hlen).
+      assert (name_eqb id_name c = false) as -> by (apply name_eqb_neq; congruence). reflexivity. }
+    assert (Hall : all_in rows (t_rows O T) = true).
+    { apply all_in_iff. intros r Hr. apply Hrws. destruct (Hlive t c r (Hrows_delta r Hr)) as [Td' [Cd' [Hf' [_ Hin']]]].
+      assert (Td' = Td) by congruence. subst Td'. exact Hin'. }
+    assert (Hne : rows <> []) by (rewrite Erows; discriminate).
+    destruct (apply_BulkUpdate_ok O s1 t T rows [(c, vals)] Ef1 Hok Hne Hall) as [cs [u' [Hcs Hstep]]].
+    { intros c0 [<-|[]]. rewrite Ec1. discriminate. }
+    cbn [rev app replay_doc]. unfold update_action. fold vals. rewrite Hstep. cbn [bind fst].
+    eexists. split; [reflexivity|].
+    assert (Hndc : nodup_names (map fst [(c, vals)]) = true) by reflexivity.
+    destruct (set_columns_spec O _ _ _ _ Hndc Hcs) as [_ Hspec].
+    intro t1. rewrite find_put_table by exact HidT. name_cases t1 t.
+    + subst t1. rewrite Ef1, Efd. split; [exact Hrws|]. cbn [t_cols t_rows]. intro c1.
+      specialize (Hspec c1). pose proof (Hcols c1) as Hc1.
+      destruct (find_col O (t_cols O T) c1) as [C1|] eqn:Ec11.
+      * destruct (find_col O (t_cols O Td) c1) as [Cd1|] eqn:Ecd1; [|contradiction].
+        destruct Hspec as [C1' [Hf1' [Hi1' Hg1']]]. rewrite Hf1'. destruct Hc1 as [Hi1 Hcells1].
+        split; [congruence|]. intros r Hin. rewrite Hg1'. unfold cell_after. cbn [cols_get].
+        rewrite (find_col_id O _ _ _ Ec11). rewrite Hi1'.
+        name_cases c1 c.
+        -- subst c1. assert (C1 = C) by congruence. subst C1. assert (Cd1 = Cd) by congruence. subst Cd1.
+           unfold vals. rewrite set_val_delta_values by exact Hrows_delta.
+           destruct (zmem r rows) eqn:Ez.
+           ++ apply zmem_In in Ez. destruct (delta_get O cd r) as [[b a]|] eqn:Ed; [|exfalso; exact (Hrows_delta r Ez Ed)].
+              right. left. pose proof (Hbef _ _ _ _ _ _ _ Efd Ecd Ed) as Hb.
+              destruct (Hwf _ _ Efd) as [_ [_ Hnorm]]. pose proof (Hnorm _ _ Ecd r (proj1 (Hrws r) Hin)) as Hn.
+              rewrite Hinfo. eapply (venc_trans O L); [apply (vnorm_enc O L); exact Hb | exact Hn].
+           ++ destruct (Hcells r Hin) as [H1|[H1|[Hn [b [a [Hd Hv]]]]]]; [left; exact H1 | right; left; exact H1|].
+              destruct (Hfine Td Cd C r b a Efd Ecd (proj1 (Hrws r) Hin) Hinfo Hd) as [H2|H2];
+                [apply zmem_false; exact Ez | exact Hv | left; exact H2 | right; left; exact H2].
+        -- destruct (Hcells1 r Hin) as [H1|[H1|[Hn [b [a [Hd Hv]]]]]]; [left; exact H1 | right; left; exact H1|].
+           right. right. split; [apply near_mono_cell; [exact Hn | congruence]|]. exists b, a. split; [exact Hd | exact Hv].
+      * destruct (find_col O (t_cols O Td) c1); [contradiction|]. rewrite Hspec. exact I.
+    + specialize (Hnear t1).
+      destruct (find_table O s1 t1) as [T1|] eqn:Ef11, (find_table O sd t1) as [Td1|] eqn:Efd1; try exact Hnear.
+      destruct Hnear as [Hr1 Hc1]. split; [exact Hr1|]. intro c1. specialize (Hc1 c1).
+      destruct (find_col O (t_cols O T1) c1) as [C1|], (find_col O (t_cols O Td1) c1) as [Cd1|]; try exact Hc1.
+      destruct Hc1 as [Hi1 Hcells1]. split; [exact Hi1|]. intros r Hin.
+      destruct (Hcells1 r Hin) as [H1|[H1|[Hn [b [a [Hd Hv]]]]]]; [left; exact H1 | right; left; exact H1|].
+      right. right. split; [apply near_mono_cell; [exact Hn | congruence]|]. eauto.
 Qed.
 
 End Calc.
